@@ -60,6 +60,7 @@ theorem inv_sendPrepResp (c : Cfg) (s : State) (i : Nat) (b : Block) (inv : Inv 
     · subst e1; exact ⟨fun h => absurd h hnp, fun _ => hver⟩
     · exact inv.checked i b1 (by rw [hnd]; exact m1)
   · intro b1 h1; have := inv.chainHeight i b1 (by rw [hnd]; exact h1); rw [hnd] at this; exact this
+  · have := inv.chainShape i; rw [hnd] at this; exact this
 
 theorem prepared_imp {c : Cfg} {s : State} (inv : Inv c s) (i : Nat) (b : Block) (j : Nat)
     (h : prepared (s.nodes i).known b j = true) : b ∈ (s.nodes j).myPreps := by
@@ -123,6 +124,7 @@ theorem inv_sendCommit (c : Cfg) (s : State) (i : Nat) (b : Block) (inv : Inv c 
     · exact preparedBy_mono g b1 (inv.commitPrepared i b1 (by rw [hnd]; exact m1))
   · intro b1 h1; exact inv.checked i b1 (by rw [hnd]; exact h1)
   · intro b1 h1; have := inv.chainHeight i b1 (by rw [hnd]; exact h1); rw [hnd] at this; exact this
+  · have := inv.chainShape i; rw [hnd] at this; exact this
 
 theorem inv_changeView (c : Cfg) (s : State) (i nv : Nat) (inv : Inv c s)
     (en : Enabled c s (.changeView i nv)) : Inv c (apply c s (.changeView i nv)) := by
@@ -152,6 +154,7 @@ theorem inv_changeView (c : Cfg) (s : State) (i nv : Nat) (inv : Inv c s)
   · intro b1 h1; exact preparedBy_mono g b1 (inv.commitPrepared i b1 (by rw [hnd]; exact h1))
   · intro b1 h1; exact inv.checked i b1 (by rw [hnd]; exact h1)
   · intro b1 h1; have := inv.chainHeight i b1 (by rw [hnd]; exact h1); rw [hnd] at this; exact this
+  · have := inv.chainShape i; rw [hnd] at this; exact this
 
 /-- moving validator `i` to the next height with a block that `M` validators signed -/
 theorem inv_advance (c : Cfg) (s : State) (i : Nat) (b : Block) (inv : Inv c s)
@@ -196,6 +199,9 @@ theorem inv_advance (c : Cfg) (s : State) (i : Nat) (b : Block) (inv : Inv c s)
     rcases List.mem_cons.mp h1 with e1 | m1
     · subst e1; omega
     · have := inv.chainHeight i b1 (by rw [hnd]; exact m1); rw [hnd] at this; omega
+  · have := inv.chainShape i; rw [hnd] at this
+    show ChainAt (b :: nd.chain) (nd.height + 1)
+    exact ⟨by omega, by rw [hbh]; exact this⟩
 
 theorem inv_accept (c : Cfg) (s : State) (i : Nat) (b : Block) (inv : Inv c s)
     (en : Enabled c s (.accept i b)) : Inv c (apply c s (.accept i b)) := by
